@@ -151,6 +151,12 @@ func VerifC03_Daemon() {
 	d.IsDaemon = true
 	d.ShutDownParams = types.ShutDownParams{ShutDownCommand: cmdOutcome, ShutDownTimeout: 2}
 	w.behav["d"] = &vBehav{codes: []int{0}} // the launcher exits 0: the daemon is launched
+	// ... before the shutdown arrives, or only afterwards (the shutdown finds it Launching)
+	stillLaunching := verifChooseK("launcher.still.running.at.shutdown", 2) == 1
+	if stillLaunching {
+		verifShape("shutdown.while.launching")
+		w.behav["d"].latency = 1
+	}
 	other := vConf("o", nil)
 	w.behav["o"] = &vBehav{untilStop: []bool{true}}
 	verifBind("github.com/f1bonacc1/process-compose/src/command.BuildCommandShellArgContext", vBuildShutCmd)
@@ -160,9 +166,15 @@ func VerifC03_Daemon() {
 	r := vRunner(vProject(d, other), false)
 	runDone := make(chan error, 1)
 	go func() { runDone <- r.Run() }()
-	verifQuiesce()
-	st, _ := r.GetProcessState("d")
-	verifAssert("daemon.launched", st != nil && st.Status == types.ProcessStateLaunched)
+	if stillLaunching {
+		verifSettle()
+		st, _ := r.GetProcessState("d")
+		verifAssert("daemon.launching", st != nil && st.Status == types.ProcessStateLaunching)
+	} else {
+		verifQuiesce()
+		st, _ := r.GetProcessState("d")
+		verifAssert("daemon.launched", st != nil && st.Status == types.ProcessStateLaunched)
+	}
 	_ = r.ShutDownProject()
 	verifAssert("nothing.alive.after.shutdown", vAliveTotal() == 0)
 	<-runDone // a hang here is the violation
